@@ -29,7 +29,7 @@ MANIFEST = {
     "technique": "explicit-state BFS over operation histories of the real object with canonical-state de-duplication and invariants on every state",
 }
 MANIFEST["text"] += " " + (
-    "Added after the seeding waves: where neither a lattice width nor non-emitting states are configured, 'live' is additionally read as 'scheduled for the current round' (nothing can legitimately re-postpone a predecessor there); graphs with a connectivity gap (two islands, two feeder roads) so that continue_with_distance produces live jump entries; width-2 configurations.")
+    "Added after the seeding waves: where neither a lattice width nor non-emitting states are configured, 'live' is additionally read as 'scheduled for the current round' (nothing can legitimately re-postpone a predecessor there); graphs with a connectivity gap (two islands, two feeder roads) so that continue_with_distance produces live jump entries; width-2 configurations; four configurations with the package logger at DEBUG (stopped entries exist only there); non_emitting_states_maxnb = 1.")
 BUDGET = {"quick": 420, "thorough": 3000}
 RULE = ("cases = (graph, trace); below each, one BFS per configuration. states = distinct canonical lattice snapshots reached, "
         "transitions = public operations executed (including replays to rebuild a state), traces validated = states on which all "
@@ -41,7 +41,11 @@ CFGS = [dict(fam=f, ne=ne, avoid=True, width=w, **cut) for f in ms.FAMS for ne i
         for cut in ({"max_dist": 1.5}, {"min_prob_norm": 0.3, "max_dist": 2.5})] + \
        [dict(fam=f, ne=True, avoid=True, width=2, max_dist=2.5, obs_noise_ne=2.0) for f in ms.FAMS] + \
        [dict(fam=f, ne=True, avoid=True, width=2, max_dist=5.0, max_dist_init=1.0, obs_noise_ne=2.0) for f in ("S", "D")] + \
-       [dict(fam=f, ne=True, avoid=True, width=w, max_dist=2.5, maxnb=1) for f, w in (("S", None), ("D", 1), ("SN", 2))]
+       [dict(fam=f, ne=True, avoid=True, width=w, max_dist=2.5, maxnb=1) for f, w in (("S", None), ("D", 1), ("SN", 2))] + \
+       [dict(fam=f, ne=True, avoid=True, width=w, debug=True, **cut) for f, w, cut in (("S", 1, {"max_dist": 1.5}), ("D", None, {"min_prob_norm": 0.3, "max_dist": 2.5}),
+                                                                                  ("SN", 1, {"max_dist": 1.5}), ("D", 2, {"max_dist": 1.0}))]
+# (the last group runs with the package logger at DEBUG: only then are candidates that fail a cut-off KEPT as stopped entries, so only
+#  there can "is live only if its predecessor is live" be violated at all)
 
 
 def space(tier):
@@ -144,6 +148,7 @@ def run_case(case):
     outs = set()
     for c in cfgs:
         seen = set()
+        ms.set_debug(bool(c.get("debug")))
         if "hist" in case:
             frontier = collections.deque([(case["hist"], None)])
         else:
@@ -176,6 +181,7 @@ def run_case(case):
             for op in hs.enabled_ops(state, T, widths=(2, 3), allow_continue=True, allow_fresh=(True if case.get("tier") == "thorough" else "shorter")):
                 frontier.append((hist + [op], hs.step_state(state, op)))
         res["st"] += len(seen)
+    ms.set_debug(False)
     res["out"] = sorted(outs)[:3000]
     res["v"] = res["v"][:20]
     return res
